@@ -210,6 +210,7 @@ func runProgram(fr *Front, g *Gen, idx int, origin, src string, corpusHists []st
 	// the facts the real checker holds at every statement boundary
 	in := NewInterp(ck)
 	in.factsBefore, in.factsEnd = map[int][]*a.Expr{}, map[int][]*a.Expr{}
+	factsAt := map[int][]*a.Expr{} // by the line the probe was inserted before
 	for _, pt := range scanPoints(src) {
 		facts, ok := fr.ProbeFacts(withProbe(src, pt.InsertBefore))
 		if !ok {
@@ -226,8 +227,13 @@ func runProgram(fr *Front, g *Gen, idx int, origin, src string, corpusHists []st
 		} else {
 			in.factsBefore[pt.Key] = facts
 		}
+		factsAt[pt.InsertBefore] = facts
 	}
 	res.Ops = corrOps(ck, in, res)
+	if len(listingText) > 0 {
+		// whole function bodies with control flow against Model/Flow.lean (flowtie.go)
+		res.Ops = append(res.Ops, flowOps(ck, src, factsAt, res.Stats)...)
+	}
 
 	// histories
 	byName := map[string]*Func{}
@@ -353,6 +359,9 @@ func main() {
 		nMut = nProg / 3
 	}
 	debug := os.Getenv("C01_DEBUG") != ""
+	if err := loadListing(r.Repo); err != nil {
+		r.Note("axioms.md could not be read (" + err.Error() + "): the `case func` correspondence ops are skipped")
+	}
 
 	// wuffs-c from the working tree + the base module it generates; the std
 	// packages must still be accepted by the working tree's checker (in-process
@@ -453,6 +462,7 @@ func main() {
 	results := make([]*ProgResult, len(jobs))
 	genStats := make([]map[string]int, len(jobs))
 	genRejOps := make([][]opLine, len(jobs))
+	genRejFlowOps := make([][]opLine, len(jobs))
 	nw := runtime.NumCPU()
 	if nw > 16 {
 		nw = 16
@@ -494,6 +504,7 @@ func main() {
 				}
 				genStats[j.idx] = g.stats
 				genRejOps[j.idx] = g.rejOps
+				genRejFlowOps[j.idx] = g.rejFlowOps
 			}
 		}()
 	}
@@ -605,6 +616,10 @@ func main() {
 		for _, o := range genRejOps[res.Idx] {
 			r.Op(o.op, o.impl)
 			r.Count("corr:reject-ops")
+		}
+		for _, o := range genRejFlowOps[res.Idx] {
+			r.Op(o.op, o.impl)
+			r.Count("flow:reject-ops")
 		}
 		if !res.Accepted {
 			r.Count(kind + ":rejected:" + res.RejClass)
